@@ -238,11 +238,18 @@ impl TryFrom<Zonefile> for ZoneBuilder {
     type Error = ZoneErrors<ContextError>;
 
     fn try_from(mut zonefile: Zonefile) -> Result<Self, Self::Error> {
-        let mut builder = ZoneBuilder::new(
-            zonefile.origin.unwrap(),
-            zonefile.class.unwrap(),
-        );
         let mut errors = ZoneErrors::<ContextError>::default();
+
+        // A zone file without any record (neither `Zonefile::new` nor a SOA
+        // record provided them) has no apex and no class: there is no zone
+        // to build.
+        let (Some(origin), Some(class)) =
+            (zonefile.origin.take(), zonefile.class)
+        else {
+            errors.add_error(Name::root_bytes(), ContextError::MissingApex);
+            return Err(errors);
+        };
+        let mut builder = ZoneBuilder::new(origin, class);
 
         // Insert all the zone cuts first. Fish out potential glue records
         // from the normal or out-of-zone records.
